@@ -81,7 +81,10 @@ def run(ctx):
     walk_fens = [l for l in so.splitlines() if l and l != "PANIC"]
     n_mat = 300 if tier == "quick" else 10000
     mat = [random_material_fen(rng) for _ in range(n_mat)]
-    fens = list(dict.fromkeys(base + walk_fens + mat))
+    # key-collision and near-collision pairs first, one after the other in the one driver process: an evaluation cache keyed by
+    # (part of) the position key answers the second with the first one's score, and its mirror — a different key — correctly
+    pair_fens = [x for pr in P.collision_pairs(near=True) for x in pr]
+    fens = list(dict.fromkeys(pair_fens + base + walk_fens + mat))
     # engine: eval(fen), eval(mirror), eval(swapped), bitboards of the mirror position
     allf = []
     for f in fens:
